@@ -13,6 +13,7 @@ DECIDES = ('for refine_knotvector x {curve, surface u/v, volume u/v/w}: every bl
 NOT_DECIDED = ('shape invariance itself for degrees and knot vectors outside the three enumerated nets; floating-point rounding of the alpha values.')
 TECHNIQUE = 'axis-tag dataflow, stride rule in polynomial normal form, structural gather/scatter rules, CFG reaching definitions, interpretation of the comparison skeleton over knot order types'
 DECIDES += (' [ABSTRACT INTERPRETATION, exact] KF3: helpers.knot_refinement on exact rational knots and symbolic control points returns the documented knot multiset (density 1 and 2) and exactly the net of the single insertions of its new knots.')
+DECIDES += (' KD5: the setters store floats in fresh lists (knot_refinement dispatches on isinstance(x[0][0], float)).')
 
 
 def check(m, run):
